@@ -90,7 +90,12 @@ impl Report {
             if let Some(k) = known.iter().find(|k| k.status == "open" && k.property == self.id && k.signature == v.signature) {
                 known_matched.insert(full.clone(), n);
                 if printed_known.insert(full.clone()) {
-                    println!("KNOWN-FINDING: property={} {} [{}; {} case(s) this run]", self.id, k.what, v.signature, n);
+                    // a replay artefact for the recorded finding as well (smallest case of this run)
+                    let h = fnv(&format!("{}{}", v.signature, v.replay));
+                    let path = format!("{}/replays/{}-known-{:08x}.json", dir, self.id, h as u32);
+                    let body = json!({"property": self.id, "signature": v.signature, "what": v.what, "replay": v.replay, "known_finding": true});
+                    std::fs::write(&path, serde_json::to_string_pretty(&body).unwrap()).ok();
+                    println!("KNOWN-FINDING: property={} {} [{}; {} case(s) this run; replay={}]", self.id, k.what, v.signature, n, path);
                 }
             } else {
                 unknown += 1;
